@@ -161,6 +161,7 @@ package formula
 //@   ensures s.token == SK_EndOfFile <==> s.tokenPos == s.end
 //@   ensures s.token != SK_EndOfFile ==> s.pos > s.tokenPos
 //@   ensures s.token == SK_EndOfFile ==> s.pos == s.end
+//@   ensures[C01,C14] isIdTok(s.token) ==> len(s.tokenValue) > 0
 //@   loop 1: invariant sbase(s) && cbok(s) && s.startPos == old(s.pos) && s.startPos <= s.pos && nd(s) >= old(nd(s))
 //@           decreases s.end - s.pos
 //@   loop 2: invariant scanFrame(s) && s.startPos == old(s.pos) && nd(s) >= old(nd(s)) && s.tokenPos < s.pos
@@ -257,6 +258,15 @@ package formula
 //@   panics never
 //@   ensures result == isIdPart(ch)
 
+// IsNull: nil interface or nil pointer (C16, and the speculation helpers).
+//@ spec isNullAny(a any) bool := isnil(a) || (isPtrAny(a) && refOf(a) == 0)
+
+//@ func IsNull
+//@   tags [C01,C03,C16]
+//@   panics never
+//@   noalloc
+//@   ensures result == isNullAny(i)
+
 // ---------------------------------------------------------------------------
 // Parser: state, token plumbing, node constructors
 // ---------------------------------------------------------------------------
@@ -265,7 +275,7 @@ package formula
 //@ frame parserState(p *Parser) := scanState(p.scanner), p.parseDiagnostics, p.nodeCount, p.identifierCount, p.parsingCtx
 
 // tokinv: what Scan establishes about the current token. pinv: a primed parser.
-//@ spec tokinv(s *Scanner) bool := (s.token == SK_EndOfFile ==> s.pos == s.end && s.tokenPos == s.end) && (s.token != SK_EndOfFile ==> s.pos > s.tokenPos)
+//@ spec tokinv(s *Scanner) bool := (s.token == SK_EndOfFile ==> s.pos == s.end && s.tokenPos == s.end) && (s.token != SK_EndOfFile ==> s.pos > s.tokenPos) && (isIdTok(s.token) ==> len(s.tokenValue) > 0)
 //@ spec pinv(p *Parser) bool := p != nil && p.scanner != nil && scanFrame(p.scanner) && !isnil(p.scanner.onError) && owner(p.scanner) == p && tokinv(p.scanner)
 //@ spec rem(p *Parser) int := p.scanner.end - p.scanner.startPos
 //@ spec tok(p *Parser) int := p.scanner.token
@@ -345,6 +355,7 @@ package formula
 //@   assigns parserState(p)
 //@   panics never
 //@   ensures pstep(p) && result != nil && fresh(result)
+//@   ensures[C01] isIdentifier && isIdTok(old(tok(p))) ==> len(result.Value) > 0
 //@   ensures isIdentifier ==> result.Value == old(p.scanner.tokenValue) && result.pos == old(spos(p)) && result.end == spos(p) && (old(tok(p)) != SK_EndOfFile ==> rem(p) < old(rem(p)))
 //@   ensures[C01,C02] !isIdentifier ==> ndp(p) > 0 && sameScan(p) && result.pos == spos(p) && result.end == spos(p)
 
@@ -477,9 +488,6 @@ package formula
 //@           invariant rem(p) == old(rem(p)) ==> tok(p) == old(tok(p))
 //@           decreases rem(p)
 
-//@ func (*Parser).parseUnaryExpression
-//@   like (*Parser).parseSimpleUnaryExpression
-
 //@ func (*Parser).parseSimpleUnaryExpression
 //@   tags [C01,C02,C15]
 //@   requires pinv(p)
@@ -600,7 +608,6 @@ package formula
 //@   decreases rem(p), 16
 //@   ensures pstep(p) && rem(p) < old(rem(p))
 //@   ensures[C01] result0 != nil
-//@   ensures[C02] result1 != nil ==> (tok(p) == SK_CloseParen || ndp(p) > 0)
 
 //@ func parseDelimitedList
 //@   tags [C01,C02,C15]
